@@ -99,6 +99,9 @@ pub struct GroupSubject<G: GroupApi> {
     /// live members whose key the harness does not know (extend / from_iter)
     specs: Vec<Spec>,
     mk: fn(u32) -> G::Member,
+    /// members (by creation ordinal) that stay Pending forever after `na` items
+    nam: usize,
+    na: u16,
 }
 
 impl<G: GroupApi> GroupSubject<G> {
@@ -114,10 +117,15 @@ impl<G: GroupApi> GroupSubject<G> {
 
     fn new_member(&mut self, unknown: bool) -> (u32, G::Member) {
         let spec = self.specs.get(self.made).copied().unwrap_or_default();
+        let ordinal = self.made;
+        let (nam, na) = (self.nam, self.na);
         self.made += 1;
         let is_stream = self.is_stream;
         let id = with(|w| {
             let id = w.new_child(0, 0, is_stream, false, spec);
+            if is_stream && ordinal < 64 && (nam >> ordinal) & 1 == 1 {
+                w.children[id as usize].never_after = na;
+            }
             if unknown {
                 w.children[id as usize].role_tag = TAG_UNKNOWN_SLOT;
             }
@@ -320,7 +328,7 @@ fn setup<G: GroupApi + 'static>(item: &PItem, g: G, is_stream: bool, mk: fn(u32)
     let home = if is_stream { 12 } else { 11 };
     let mm = item.u("mm", 3);
     let specs: Vec<Spec> = (0..mm.max(8)).map(|i| spec_for(item, i)).collect();
-    let mut s = GroupSubject { g: Some(g), home, is_stream, keys: Vec::new(), made: iter_members, max_members: mm, rm: item.u("rm", 1) != 0, rs: item.u("rs", 0) != 0, ext: item.u("ext", 0) != 0, specs, mk };
+    let mut s = GroupSubject { g: Some(g), home, is_stream, keys: Vec::new(), made: iter_members, max_members: mm, rm: item.u("rm", 1) != 0, rs: item.u("rs", 0) != 0, ext: item.u("ext", 0) != 0, specs, mk, nam: item.u("nam", 0), na: item.u("na", 1) as u16 };
     if let Some((id, m)) = nested {
         // one member is itself a combinator (one level of nesting)
         s.insert_member(id, m);
